@@ -78,6 +78,7 @@ type Rec struct {
 	Firing   []uint64
 	Resolved []uint64
 	Ok       bool
+	Ts, Exp    int64  // merge: the delivered entry's timestamp and expiry
 	Suppressed []bool // flush: per alert, the instance's own mute verdict (inhibitor or silencer) at flush time
 }
 
@@ -95,6 +96,7 @@ type Sim struct {
 	Reg       *prometheus.Registry
 	Wait      func() time.Duration
 
+	NfMtx sync.Mutex // serialises notification-log operations with their records
 	mtx   sync.Mutex
 	recs  []Rec
 	calls map[string]int // per integration key: number of Notify calls so far
@@ -141,6 +143,9 @@ func (s *Sim) add(r Rec) {
 	s.recs = append(s.recs, r)
 	s.mtx.Unlock()
 }
+
+// AddRec appends an observation made by the harness itself (e.g. a gossip delivery).
+func (s *Sim) AddRec(r Rec) { s.add(r) }
 
 // Recs returns a copy of the observations so far.
 func (s *Sim) Recs() []Rec {
@@ -219,16 +224,35 @@ type recLog struct {
 	inner *nflog.Log
 }
 
+// The record of a log operation and the operation itself happen under one lock (NfMtx), so that the recorded order
+// of queries, log writes and gossip merges IS the order in which the notification log saw them.
 func (l *recLog) Log(r *nflogpb.Receiver, gkey string, firing, resolved []uint64, st *nflog.Store, expiry time.Duration) error {
+	l.s.NfMtx.Lock()
+	defer l.s.NfMtx.Unlock()
 	l.s.add(Rec{Kind: "log", GKey: gkey, Recv: r.GroupName, I: int(r.Idx), Firing: append([]uint64(nil), firing...), Resolved: append([]uint64(nil), resolved...)})
 	return l.inner.Log(r, gkey, firing, resolved, st, expiry)
 }
 
 func (l *recLog) Query(params ...nflog.QueryParam) ([]*nflogpb.Entry, error) {
-	// the receiver and group key are inside the opaque params: recover them from the result or a probe
-	es, err := l.inner.Query(params...)
-	l.s.add(Rec{Kind: "query"})
-	return es, err
+	l.s.NfMtx.Lock()
+	defer l.s.NfMtx.Unlock()
+	recv, gkey := nflog.VerifQueryKey(params...)
+	rec := Rec{Kind: "query", GKey: gkey}
+	if recv != nil {
+		rec.Recv, rec.I = recv.GroupName, int(recv.Idx)
+	}
+	l.s.add(rec)
+	return l.inner.Query(params...)
+}
+
+// MergeNflog delivers gossip bytes to the instance's notification log, recording recs first, atomically.
+func (s *Sim) MergeNflog(b []byte, recs []Rec) error {
+	s.NfMtx.Lock()
+	defer s.NfMtx.Unlock()
+	for _, r := range recs {
+		s.add(r)
+	}
+	return s.Nflog.Merge(b)
 }
 
 // ---- recording stage in front of the pipeline ----
